@@ -391,6 +391,222 @@ Section Mean.
   Qed.
 End Mean.
 
+(* ------------------------------------------------------------------ mean / sum placement, final result (at Z) *)
+Lemma nth_firstn_lt_x {X} (d : X) : forall (xs : list X) k n, k < n -> nth k (firstn n xs) d = nth k xs d.
+Proof.
+  induction xs as [|x xs IH]; intros k n H; [now rewrite firstn_nil|].
+  destruct n; [lia|]. destruct k; simpl; auto. apply IH. lia.
+Qed.
+
+Lemma nth_skipn_x {X} (d : X) : forall f (xs : list X) k, nth k (skipn f xs) d = nth (f + k) xs d.
+Proof. induction f as [|f IH]; intros xs k; simpl; auto. destruct xs; [now destruct k|]. apply IH. Qed.
+
+Definition upd {V} (old : list V) (p : nat) (v : V) : list V := firstn p old ++ v :: skipn (S p) old.
+
+Lemma upd_length {V} (old : list V) p v : p < length old -> length (upd old p v) = length old.
+Proof.
+  intros H. unfold upd. rewrite app_length, firstn_length.
+  change (length (v :: skipn (S p) old)) with (S (length (skipn (S p) old))). rewrite skipn_length. lia.
+Qed.
+
+Lemma upd_nth {V} (d : V) (old : list V) p v r : p < length old ->
+  nth r (upd old p v) d = if Nat.eqb r p then v else nth r old d.
+Proof.
+  intros H. unfold upd. assert (Lf : length (firstn p old) = p) by (rewrite firstn_length; lia).
+  destruct (Nat.eqb_spec r p) as [->|NE].
+  - rewrite app_nth2 by lia. rewrite Lf, Nat.sub_diag. reflexivity.
+  - destruct (Nat.lt_ge_cases r p).
+    + rewrite app_nth1 by lia. now apply nth_firstn_lt_x.
+    + rewrite app_nth2 by lia. rewrite Lf. destruct (r - p) as [|q] eqn:E; [lia|].
+      change (nth (S q) (v :: skipn (S p) old) d) with (nth q (skipn (S p) old) d).
+      rewrite nth_skipn_x. f_equal. lia.
+Qed.
+
+Lemma index_assign_nth {V} (d : V) : forall (pt : list nat) (vals old : list V) r,
+  NoDup pt -> length vals = length pt -> (forall p, In p pt -> p < length old) ->
+  (forall j, j < length pt -> nth j pt 0 = r -> nth r (index_assign pt vals old) d = nth j vals d)
+  /\ (~ In r pt -> nth r (index_assign pt vals old) d = nth r old d).
+Proof.
+  induction pt as [|p pt IH]; intros vals old r Hnd Hl Hlt.
+  - split; [intros j Hj; simpl in Hj; lia|]. intros _. destruct vals; reflexivity.
+  - destruct vals as [|v vals]; [discriminate|]. simpl in Hl.
+    inversion Hnd as [|? ? Hn Hnd']; subst.
+    assert (Hp : p < length old) by (apply Hlt; simpl; auto).
+    change (index_assign (p :: pt) (v :: vals) old) with (index_assign pt vals (upd old p v)).
+    destruct (IH vals (upd old p v) r Hnd' ltac:(lia)) as [IH1 IH2].
+    { intros q Hq. rewrite upd_length by auto. apply Hlt. simpl; auto. }
+    split.
+    + intros [|j] Hj E.
+      * simpl in E. subst r. rewrite IH2 by auto. rewrite upd_nth by auto. now rewrite Nat.eqb_refl.
+      * simpl in Hj, E. apply IH1; auto. lia.
+    + intros Hin. rewrite IH2 by (intro; apply Hin; simpl; auto). rewrite upd_nth by auto.
+      destruct (Nat.eqb_spec r p); auto. subst. exfalso. apply Hin. simpl; auto.
+Qed.
+
+Lemma select_combine_in_x {X Y} (dx : X) (dy : Y) m : forall xs ys k, nth k m false = true ->
+  k < length xs -> k < length ys ->
+  In (nth k xs dx, nth k ys dy) (combine (select m xs) (select m ys)).
+Proof.
+  induction m as [|b m IH]; intros xs ys k Hm Hx Hy; [destruct k; discriminate|].
+  destruct xs as [|x xs], ys as [|y ys]; simpl in Hx, Hy; try lia.
+  destruct k; simpl in Hm.
+  - subst b. simpl. auto.
+  - destruct b; simpl; [right|]; apply IH; auto; lia.
+Qed.
+
+Lemma select_in_nth_x {X} (d : X) m : forall xs x, In x (select m xs) ->
+  exists k, k < length xs /\ nth k m false = true /\ nth k xs d = x.
+Proof.
+  induction m as [|b m IH]; intros xs x H; [inversion H|].
+  destruct xs as [|y xs]; [inversion H|]. simpl in H. destruct b.
+  - destruct H as [<-|H]; [exists 0; simpl; repeat split; auto; lia|].
+    destruct (IH _ _ H) as [k [? [? ?]]]. exists (S k). simpl. repeat split; auto; lia.
+  - destruct (IH _ _ H) as [k [? [? ?]]]. exists (S k). simpl. repeat split; auto; lia.
+Qed.
+
+Lemma select_NoDup_x {X} m : forall (xs : list X), NoDup xs -> NoDup (select m xs).
+Proof.
+  induction m as [|b m IH]; intros [|x xs] H; simpl; try constructor.
+  inversion H; subst. destruct b; auto. constructor; auto. intro Hin. apply select_in in Hin. contradiction.
+Qed.
+
+Lemma select_length_le {X} m : forall (xs : list X), length (select m xs) <= length xs.
+Proof. induction m as [|b m IH]; intros [|x xs]; simpl; try lia. destruct b; simpl; specialize (IH xs); lia. Qed.
+
+Lemma select_same_length {X Y} m : forall (xs : list X) (ys : list Y), length xs = length ys ->
+  length (select m xs) = length (select m ys).
+Proof.
+  induction m as [|b m IH]; intros [|x xs] [|y ys] H; simpl in *; try discriminate; auto.
+  destruct b; simpl; rewrite (IH xs ys) by lia; reflexivity.
+Qed.
+
+(* res[ps[m]] = ws[m] : row ps[j] receives ws[j] iff m[j], all other rows keep their content *)
+Lemma index_assign_select {V} (d : V) (m : list bool) (ps : list nat) (ws old : list V) r j :
+  NoDup ps -> length ws = length ps -> (forall p, In p ps -> p < length old) ->
+  j < length ps -> nth j ps 0 = r ->
+  nth r (index_assign (select m ps) (select m ws) old) d = if nth j m false then nth j ws d else nth r old d.
+Proof.
+  intros Hnd Hl Hlt Hj E.
+  destruct (index_assign_nth d (select m ps) (select m ws) old r) as [H1 H2].
+  - now apply select_NoDup_x.
+  - symmetry. now apply select_same_length.
+  - intros p Hp. apply Hlt. eapply select_in; eauto.
+  - destruct (nth j m false) eqn:Hm.
+    + pose proof (select_combine_in_x 0 d m ps ws j Hm Hj ltac:(lia)) as Hin.
+      apply In_nth with (d := (0, d)) in Hin. destruct Hin as [j' [Hj' Ej']].
+      rewrite combine_length in Hj'. rewrite combine_nth in Ej' by (now apply select_same_length).
+      injection Ej' as Ea Eb. rewrite <- Eb. apply H1; [lia|]. rewrite Ea. exact E.
+    + apply H2. intro Hin. apply (select_in_nth_x 0) in Hin. destruct Hin as [k [Hk [Hmk Ek]]].
+      assert (k = j) by (apply (proj1 (NoDup_nth ps 0) Hnd); auto; congruence). subst. congruence.
+Qed.
+
+Lemma select_map_x {X Y} (g : X -> Y) m : forall xs, select m (map g xs) = map g (select m xs).
+Proof. induction m as [|b m IH]; intros [|x xs]; simpl; auto. destruct b; simpl; now rewrite IH. Qed.
+
+Lemma select_combine {X Y} m : forall (xs : list X) (ys : list Y), length xs = length ys ->
+  combine (select m xs) (select m ys) = select m (combine xs ys).
+Proof.
+  induction m as [|b m IH]; intros [|x xs] [|y ys] H; simpl in *; try discriminate; auto.
+  destruct b; simpl; rewrite IH by lia; reflexivity.
+Qed.
+
+Definition rowsumZ (secs : list nat) (x : list Z) (r : nat) : Z := lsum 0%Z Z.add (row_block secs x r).
+
+(* the keys of the grouped sum over ELEMENT_IDX are the labels in sorted order *)
+Lemma spec_keys_sorted_labels labels secs order :
+  length secs = length labels -> NoDup labels -> (forall s, In s secs -> 0 < s) ->
+  Permutation order (seq 0 (length labels)) -> Sorted Z.le (permute 0%Z order labels) ->
+  distinct_sorted (idx_pit_of labels secs) = permute 0%Z order labels.
+Proof.
+  intros Hl Hnd Hpos Hp Hs. apply ssorted_unique.
+  - apply distinct_sorted_sorted.
+  - assert (Hnd' : NoDup (permute 0%Z order labels)).
+    { unfold permute. apply (Permutation_NoDup (l := labels)); auto.
+      apply Permutation_sym. eapply Permutation_trans; [apply Permutation_map; exact Hp|].
+      rewrite map_nth_seq_own. apply Permutation_refl. }
+    revert Hs Hnd'. generalize (permute 0%Z order labels). intros l Hs' Hnd'.
+    apply Sorted_StronglySorted in Hs'; [|intros ? ? ?; lia].
+    induction Hs' as [|a l Hs' IH Hall]; constructor.
+    + apply IH. now inversion Hnd'.
+    + inversion Hnd' as [|? ? Hn _]; subst. rewrite Forall_forall in *. intros x Hx.
+      specialize (Hall _ Hx). assert (x <> a) by (intro; subst; contradiction). lia.
+  - intros x. rewrite distinct_sorted_in. unfold idx_pit_of, permute. rewrite in_flat_map, in_map_iff. split.
+    + intros [[l s] [Hin Hrep]]. apply repeat_spec in Hrep. simpl in Hrep. subst.
+      apply in_combine_l in Hin. apply In_nth with (d := 0%Z) in Hin. destruct Hin as [i [Hi E]].
+      exists i. split; auto. apply (Permutation_in _ (Permutation_sym Hp)). apply in_seq. lia.
+    + intros [i [E Hi]]. apply (Permutation_in _ Hp) in Hi. apply in_seq in Hi.
+      exists (nth i labels 0%Z, nth i secs 0). split.
+      * rewrite <- combine_nth by auto. apply nth_In. rewrite combine_length. lia.
+      * simpl. subst x. assert (0 < nth i secs 0) by (apply Hpos, nth_In; lia).
+        destruct (nth i secs 0); [lia|]. simpl. auto.
+Qed.
+
+Lemma idx_pit_members labels secs k : In k (idx_pit_of labels secs) -> In k labels.
+Proof.
+  unfold idx_pit_of. rewrite in_flat_map. intros [[l s] [Hin Hrep]]. apply repeat_spec in Hrep. simpl in Hrep.
+  subst. eapply in_combine_l; eauto.
+Qed.
+
+(* section means and sums, final content of the result column (integers; Z.div is the exact mean for the
+   divisible values the correspondence uses): row r is written iff one of its sections is connected, and then holds
+   the sum over ITS OWN sections - divided by ITS OWN section count unless the entry is dp_frict_loss *)
+Theorem mean_placement_Z (is_sum use_numba : bool) labels secs (conn : list bool) (vals old : list Z) :
+  length secs = length labels -> NoDup labels -> (forall l, In l labels -> (0 <= l)%Z) ->
+  (forall s, In s secs -> 0 < s) ->
+  length conn = fold_right plus 0 secs -> length vals = fold_right plus 0 secs -> length old = length labels ->
+  forall r, r < length labels ->
+    nth r (place_mean is_sum use_numba labels (idx_pit_of labels secs) conn vals old) 0%Z =
+    if (0 <? rowsumZ secs (map (fun b : bool => if b then 1 else 0) conn) r)%Z
+    then (if is_sum then rowsumZ secs vals r
+          else rowsumZ secs vals r / rowsumZ secs (map (fun _ => 1) (idx_pit_of labels secs)) r)%Z
+    else nth r old 0%Z.
+Proof.
+  intros Hl Hnd Hnn Hpos Hc Hv Ho r Hr.
+  set (idx := idx_pit_of labels secs).
+  assert (Li : length idx = fold_right plus 0 secs) by (apply idx_pit_length; auto).
+  assert (Hkey : forall k, In k idx -> (0 <= k)%Z) by (intros k Hk; apply Hnn; eapply idx_pit_members; eauto).
+  set (ones := map (fun _ : Z => 1%Z) idx). set (ci := map (fun b : bool => if b then 1%Z else 0%Z) conn).
+  set (order := argsort labels).
+  pose proof (argsort_perm labels) as Hp. pose proof (argsort_sorted labels) as Hs. fold order in Hp, Hs.
+  assert (Lo : length order = length labels) by (rewrite (Permutation_length Hp); apply seq_length).
+  unfold place_mean. fold idx. fold ones. fold ci. fold order.
+  unfold sbg_cols_Z. cbn [snd map nth].
+  rewrite !(sbg_model_order_spec 0%Z 1%Z Z.add Z.mul Z.sub Z.opp InitialRing.Zth) by
+    (auto; unfold ones, ci; rewrite ?map_length; lia).
+  set (S1 := snd (sbg_spec 0%Z Z.add idx ones)). set (S2 := snd (sbg_spec 0%Z Z.add idx ci)).
+  set (S3 := snd (sbg_spec 0%Z Z.add idx vals)).
+  assert (Hgrp : forall x, length x = fold_right plus 0 secs ->
+            length (snd (sbg_spec 0%Z Z.add idx x)) = length labels /\
+            forall j, j < length labels ->
+              nth j (snd (sbg_spec 0%Z Z.add idx x)) 0%Z = rowsumZ secs x (nth j order 0)).
+  { intros x Hx. split.
+    - unfold sbg_spec. cbn [snd]. rewrite map_length. unfold idx.
+      rewrite (spec_keys_sorted_labels labels secs order) by auto. unfold permute. now rewrite map_length.
+    - intros j Hj.
+      destruct (mean_groups_are_rows 0%Z 1%Z Z.add Z.mul Z.sub Z.opp InitialRing.Zth labels secs x order j) as [_ E];
+        auto. }
+  destruct (Hgrp ones ltac:(unfold ones; rewrite map_length; lia)) as [L1 G1]. fold S1 in L1, G1.
+  destruct (Hgrp ci ltac:(unfold ci; rewrite map_length; lia)) as [L2 G2]. fold S2 in L2, G2.
+  destruct (Hgrp vals Hv) as [L3 G3]. fold S3 in L3, G3.
+  set (f := fun p : Z * Z => if is_sum then fst p else (fst p / snd p)%Z).
+  set (cmask := map (fun c : Z => (0 <? c)%Z) S2).
+  rewrite select_combine by lia. rewrite <- select_map_x.
+  (* the row r is the group j with order[j] = r *)
+  assert (Hin : In r order) by (apply (Permutation_in _ (Permutation_sym Hp)); apply in_seq; lia).
+  apply In_nth with (d := 0) in Hin. destruct Hin as [j [Hj Ej]].
+  rewrite (index_assign_select 0%Z cmask order (map f (combine S3 S1)) old r j).
+  - unfold cmask. rewrite (nth_map_lt2 (fun c : Z => (0 <? c)%Z) S2 j false 0%Z) by lia.
+    rewrite G2 by lia. rewrite Ej.
+    destruct (0 <? rowsumZ secs ci r)%Z; auto.
+    rewrite (nth_map_lt2 f (combine S3 S1) j 0%Z (0%Z, 0%Z)) by (rewrite combine_length; lia).
+    rewrite combine_nth by lia. rewrite G3, G1 by lia. rewrite Ej. unfold f. simpl. reflexivity.
+  - apply (Permutation_NoDup (Permutation_sym Hp)). apply seq_NoDup.
+  - rewrite map_length, combine_length. lia.
+  - intros p Hp'. apply (Permutation_in _ Hp) in Hp'. apply in_seq in Hp'. lia.
+  - lia.
+  - exact Ej.
+Qed.
+
 (* ------------------------------------------------------------------ relabel invariance of the structural pit *)
 Lemma idx_pit_relabel rp : forall labels secs,
   idx_pit_of (map rp labels) secs = map rp (idx_pit_of labels secs).
